@@ -239,6 +239,7 @@ func TestCheck(t *testing.T) {
 	}
 	nAbove := vf.Pick(r, 2, 3)
 	budgets := vf.Pick(r, map[string]int{"crash": 2, "order": 2}, map[string]int{"crash": 2, "order": 4})
+	budgets3 := map[string]int{"crash": 2, "order": 2}
 	r.Assume = []string{
 		"crash model as in C04 (process dies between two durable datastore writes; caches are lost); the executor is external and survives",
 		"before the first crash the events arrive in one of three canonical orders (interleaved ascending, all data then headers, descending); after a reboot the complete event set is delivered again in every order within the order budget",
@@ -377,7 +378,11 @@ func TestCheck(t *testing.T) {
 			caps = append(caps, "deadline reached before pattern "+pt)
 			break
 		}
-		st := explore.Explore(explore.Config{Budgets: budgets, Deadline: left, ShardDepth: 2}, func(c *explore.Ctx) {
+		b := budgets
+		if len(pt) >= 3 {
+			b = budgets3 // chains of 3 blocks above genesis (thorough only): the quick tier's order budget
+		}
+		st := explore.Explore(explore.Config{Budgets: b, Deadline: left, ShardDepth: 2}, func(c *explore.Ctx) {
 			o := body(t, c, pc)
 			if o.fail != nil {
 				r.Report(vf.Violation{Clause: o.fail.Clause, Tags: o.tags, Msg: fmt.Sprintf("%s\n chain: genesis+%q\n trace: %s", o.fail.Msg, pt, strings.Join(o.trace, " ")), Cost: len(o.trace), History: map[string]any{"Pattern": pt, "Choices": c.Choices()}})
@@ -440,6 +445,6 @@ func TestCheck(t *testing.T) {
 		Evaluations: total.Executions, DistinctNontrivial: int64(r.DistinctOutcomes()), States: total.Executions, Transitions: total.Points,
 		Rule:       "for every producer chain pattern (1..n blocks above genesis over {empty,A,B} without repeated non-empty lists) × 3 pre-crash delivery orders: every crash point among all durable writes of block application (recurring during recovery, budget `crash`), then the complete event set again in every order within the order budget; distinct = distinct traces. Real-executor part: the same histories with apps/testapp/kv.KVExecutor (own durable database, reopened by every life) as execution layer, for every chain of 1..kv_blocks blocks over {empty, A={k1=a,k2=a}, B={k1=b}} where the first letter is the block AT the initial height (so the first applied block may change the executor state while the node store has no state yet); crash points = every durable write of the node store AND every commit of the executor database",
 		Exhaustive: true, Caps: caps,
-		Bounds:     map[string]any{"blocks_above_genesis": nAbove, "patterns": len(jobs), "budgets": budgets, "kv_executor": map[string]any{"kv_blocks_incl_initial": nKV, "patterns": len(kvJobs), "budgets": kvBudgets}},
+		Bounds:     map[string]any{"blocks_above_genesis": nAbove, "patterns": len(jobs), "budgets": budgets, "budgets_chains_of_3_blocks": budgets3, "kv_executor": map[string]any{"kv_blocks_incl_initial": nKV, "patterns": len(kvJobs), "budgets": kvBudgets}},
 	})
 }
